@@ -10,6 +10,7 @@ import (
 	"os"
 	"os/exec"
 	"path/filepath"
+	"reflect"
 	"regexp"
 	"strings"
 	"testing"
@@ -184,6 +185,7 @@ func checkFile(c FileCase) vrep.Result {
 	outbox += `]}`
 	sim.Set(0, prefix+"/actor", vsim.JSON(`{"id":"`+actorURL+`","type":"Person","name":"Probe","preferredUsername":"probe","summary":"<p>bio <a href=\"https://x.invalid/bio\">link</a></p>","outbox":`+outbox+`}`))
 
+	sim.Set(0, prefix+"/moved", vsim.Redirect(302, actorURL))
 	dir, _ := os.MkdirTemp(work, "cfg-")
 	defer os.RemoveAll(dir)
 	os.MkdirAll(filepath.Join(dir, "servitor"), 0o755)
@@ -192,7 +194,7 @@ func checkFile(c FileCase) vrep.Result {
 		os.WriteFile(filepath.Join(dir, "servitor", "config.toml"), []byte(text), 0o644)
 	}
 	cmd := exec.Command(probe)
-	cmd.Env = append(os.Environ(), "XDG_CONFIG_HOME="+dir, "HOME="+dir, "PROBE_ACTOR="+actorURL)
+	cmd.Env = append(os.Environ(), "XDG_CONFIG_HOME="+dir, "HOME="+dir, "PROBE_ACTOR="+actorURL, "PROBE_MOVED="+sim.URL(0, prefix+"/moved"))
 	var out bytes.Buffer
 	cmd.Stdout, cmd.Stderr = &out, &out
 	done := make(chan error, 1)
@@ -343,6 +345,11 @@ func checkParsed(c FileCase, output string) error {
 		if fmt.Sprint(parsed.Media.Hook) != "[xdg-open %url]" {
 			return fmt.Errorf("media.hook was not given but is %q", parsed.Media.Hook)
 		}
+	} else if s.Label == "ok" {
+		var want []string
+		if err := json.Unmarshal([]byte(s.Text), &want); err == nil && !reflect.DeepEqual(want, parsed.Media.Hook) {
+			return fmt.Errorf("media.hook = %s was parsed as %q", s.Text, parsed.Media.Hook)
+		}
 	}
 	return nil
 }
@@ -417,9 +424,10 @@ func genSetting(t *rapid.T, key string) Setting {
 	case "hook":
 		switch s.Label {
 		case "ok":
-			s.Text = rapid.SampledFrom([]string{`["true"]`, `["true", "%url"]`, `["sh", "-c", "exit 0", "%url", "%mimetype"]`, `["false", "%url"]`}).Draw(t, "hook")
+			s.Text = rapid.SampledFrom([]string{`["true"]`, `["true", "%url"]`, `["sh", "-c", "exit 0", "%url", "%mimetype"]`, `["false", "%url"]`,
+				`["sh", "-c", "test -n \"$1\"; exit 0 ${UNSET_VARIABLE} $$ $HOME", "sh", "%url"]`}).Draw(t, "hook")
 		case "out-of-range":
-			s.Text = rapid.SampledFrom([]string{`[]`, `[""]`, `["/nonexistent/program", "%url"]`, `["", "%url"]`}).Draw(t, "hookbad")
+			s.Text = rapid.SampledFrom([]string{`[]`, `[""]`, `["/nonexistent/program", "%url"]`, `["", "%url"]`, `[" "]`, `["\t "]`, `[" ", "%url"]`, `["true "]`}).Draw(t, "hookbad")
 		default:
 			s.Text = rapid.SampledFrom([]string{`"xdg-open %url"`, `[1, 2]`, `true`, `[["a"]]`}).Draw(t, "hooktype")
 		}
